@@ -5,7 +5,9 @@ package exec
 
 import (
 	"bytes"
+	"crypto/sha256"
 	"errors"
+	"hash"
 	"fmt"
 	"os"
 	"strings"
@@ -255,6 +257,7 @@ type RunStats struct {
 	EmptyLeafCur int // cursor calls made while the tx had emptied ranges
 	ErrProbes    int
 	Transitions  map[string]int
+	Transcript   string
 	LastDecode   *decode.Result `json:"-"`
 }
 
@@ -277,6 +280,29 @@ type Runner struct {
 	OnStep      func(r *Runner, i int, s *gen.Step) // before each step
 	prevInline  map[string]bool
 	prevDepth   int
+	transcript  hash.Hash
+	lastAPIDump []string
+	aux         bool // current step is auxiliary (not part of the transcript)
+}
+
+// note feeds one observed API result into the transcript hash.
+func (r *Runner) note(format string, a ...any) {
+	if r.aux {
+		return
+	}
+	if r.transcript == nil {
+		r.transcript = sha256.New()
+	}
+	fmt.Fprintf(r.transcript, format, a...)
+	r.transcript.Write([]byte{0})
+}
+
+// Transcript returns the hash of all API results observed so far.
+func (r *Runner) Transcript() string {
+	if r.transcript == nil {
+		return ""
+	}
+	return fmt.Sprintf("%x", r.transcript.Sum(nil)[:12])
 }
 
 func NewRunner(path string, mon Monitors) *Runner {
@@ -330,6 +356,7 @@ func valEq(a, b []byte) bool { return bytes.Equal(a, b) }
 
 func (r *Runner) cmpCur(what string, want model.CurRes, k, v []byte) {
 	r.Stats.CursorCalls++
+	r.note("cur %x %x", k, v)
 	if !want.Present {
 		if k != nil {
 			r.fail("cursor", "%s returned key %s, model says nil", what, model.KeyLabel(string(k)))
@@ -368,6 +395,8 @@ func (r *Runner) quiescent(what string) {
 		err := r.DB.View(func(tx *bolt.Tx) error {
 			if r.Mon.Dumps {
 				got, probs := DumpTx(tx, r.Mon.DeepDump)
+				r.lastAPIDump = got
+				r.note("dump %s", strings.Join(got, "\n"))
 				r.Stats.DumpChecks++
 				for _, p := range probs {
 					r.fail("read-paths-disagree", "%s: %s", what, p)
@@ -439,14 +468,21 @@ func (r *Runner) fileOracles(what string) {
 			case strings.Contains(e, "listed twice"):
 				kind = "double-free"
 			}
+			if !r.Mon.Accounting && kind != "decode" {
+				continue // page accounting is C07's oracle
+			}
 			r.fail("D:"+kind, "%s: independent decoder: %s", what, e)
 			break
 		}
 	}
 	if r.Mon.Format && res.Content != nil {
 		r.Stats.APIChecks++
-		if d := model.DiffDumps(ModelDump(r.Sim.Committed), ModelDump(res.Content)); d != "" {
-			r.fail("format", "%s: file decoded by D differs from the model/API content: %s", what, d)
+		ref, refName := ModelDump(r.Sim.Committed), "model"
+		if r.Mon.Dumps && r.lastAPIDump != nil {
+			ref, refName = r.lastAPIDump, "API dump"
+		}
+		if d := model.DiffDumps(ref, ModelDump(res.Content)); d != "" {
+			r.fail("format", "%s: file decoded by the independent decoder differs from the %s: %s", what, refName, strings.Replace(d, "real", "decoder", -1))
 		}
 	}
 	if (r.Mon.Accounting || r.Mon.FreeExact) && len(res.Errors) == 0 {
@@ -492,97 +528,6 @@ func (r *Runner) trackStructure(res *decode.Result) {
 	r.prevInline = res.Inline
 }
 
-// accounting compares bbolt's own view of the pages with D's.
-func (r *Runner) accounting(what string, res *decode.Result) {
-	unreach := res.Unreachable()
-	st := r.DB.VerifFreelist()
-	if st != nil {
-		// exact: free ∪ pending == unreachable pages of the newest version
-		have := map[uint64]int{}
-		for _, id := range st.Free {
-			have[uint64(id)]++
-		}
-		npend := 0
-		for _, l := range st.Pending {
-			for _, p := range l {
-				have[uint64(p.ID)]++
-				npend++
-			}
-		}
-		for id, n := range have {
-			if n > 1 {
-				r.fail("alloc:dup", "%s: page %d appears %d times in the allocator's free+pending sets", what, id, n)
-			}
-		}
-		want := map[uint64]bool{}
-		for _, id := range unreach {
-			want[id] = true
-			if have[id] == 0 {
-				r.fail("alloc:leak", "%s: page %d is unreachable in the file but neither free nor pending in the allocator", what, id)
-				break
-			}
-		}
-		for id := range have {
-			if !want[id] {
-				u := res.Use[id]
-				r.fail("alloc:free-and-used", "%s: page %d is free/pending in the allocator but in use as %s", what, id, u.Kind)
-				break
-			}
-		}
-		if r.Mon.Accounting {
-			s := r.DB.Stats()
-			if s.FreePageN != len(st.Free) || s.PendingPageN != npend {
-				r.fail("stats", "%s: Stats FreePageN=%d PendingPageN=%d, allocator has %d free %d pending", what, s.FreePageN, s.PendingPageN, len(st.Free), npend)
-			}
-			if s.FreeAlloc != (len(st.Free)+npend)*res.PageSize {
-				r.fail("stats", "%s: Stats FreeAlloc=%d, want %d", what, s.FreeAlloc, (len(st.Free)+npend)*res.PageSize)
-			}
-			if s.FreePageN+s.PendingPageN != len(unreach) {
-				r.fail("stats", "%s: Stats free+pending=%d, D counts %d unreachable pages", what, s.FreePageN+s.PendingPageN, len(unreach))
-			}
-		}
-	}
-	if r.Mon.Accounting {
-		// Tx.Page(id).Type for every id agrees with D
-		_ = r.DB.View(func(tx *bolt.Tx) error {
-			free := map[uint64]bool{}
-			for _, id := range unreach {
-				free[id] = true
-			}
-			for id := uint64(0); id < res.Meta.Pgid; id++ {
-				pi, err := tx.Page(int(id))
-				if err != nil || pi == nil {
-					r.fail("txpage", "%s: Tx.Page(%d) = %v, %v", what, id, pi, err)
-					return nil
-				}
-				u, used := res.Use[id]
-				switch {
-				case used && u.First == id:
-					if pi.Type != u.Kind {
-						r.fail("txpage", "%s: Tx.Page(%d).Type=%s, D says %s", what, id, pi.Type, u.Kind)
-						return nil
-					}
-				case !used:
-					if pi.Type != "free" {
-						r.fail("txpage", "%s: Tx.Page(%d).Type=%s, D says unreachable (free)", what, id, pi.Type)
-						return nil
-					}
-				}
-			}
-			if pi, _ := tx.Page(int(res.Meta.Pgid)); pi != nil {
-				r.fail("txpage", "%s: Tx.Page(hwm) is not nil", what)
-			}
-			if tx.Size() != int64(res.Meta.Pgid)*int64(res.PageSize) {
-				r.fail("txsize", "%s: Tx.Size()=%d, hwm*pagesize=%d", what, tx.Size(), int64(res.Meta.Pgid)*int64(res.PageSize))
-			}
-			return nil
-		})
-		if fi, err := os.Stat(r.Path); err == nil && fi.Size() < int64(res.Meta.Pgid)*int64(res.PageSize) {
-			r.fail("short-file", "%s: file length %d < hwm %d * %d", what, fi.Size(), res.Meta.Pgid, res.PageSize)
-		}
-	}
-}
-
 // Run executes the program. It recovers panics of the code under test and
 // reports them as violations (kind "panic").
 func (r *Runner) Run(p *gen.Program) (viol []Violation) {
@@ -591,6 +536,7 @@ func (r *Runner) Run(p *gen.Program) (viol []Violation) {
 			r.fail("panic", "panic: %v", x)
 		}
 		r.Cleanup()
+		r.Stats.Transcript = r.Transcript()
 		viol = r.Viol
 	}()
 	for i := range p.Steps {
@@ -608,6 +554,7 @@ func (r *Runner) Run(p *gen.Program) (viol []Violation) {
 }
 
 func (r *Runner) doStep(st *gen.Step) {
+	r.aux = st.How == "aux"
 	exp := r.Sim.Apply(st)
 	switch st.Op {
 	case "open", "reopen":
@@ -723,6 +670,7 @@ func (r *Runner) doStep(st *gen.Step) {
 		return
 	}
 	api := func(what string, err error) {
+		r.note("%s %s", what, ErrName(err))
 		r.Stats.APIChecks++
 		if exp.Err != model.OK {
 			r.Stats.ErrProbes++
@@ -809,6 +757,7 @@ func (r *Runner) doStep(st *gen.Step) {
 	case "get":
 		r.Stats.APIChecks++
 		v := b.Get(st.K.Bytes())
+		r.note("get %x", v)
 		if r.Mon.API {
 			if exp.Present && (v == nil && len(exp.Val) > 0 || !valEq(v, exp.Val)) {
 				r.fail("get", "Get(%s) = %s, model %s", model.KeyLabel(string(st.K.Bytes())), model.ValLabel(v), model.ValLabel(exp.Val))
